@@ -79,6 +79,16 @@ def sample(states, k, seed):
     return [st for i, st in enumerate(keyed) if (i + seed) % k == 0]
 
 
+def with_ctor(cases):
+    """every 5th case is also run on an object built by the class constructor"""
+    out = []
+    for i, c in enumerate(cases):
+        out.append(c)
+        if i % 5 == 2 and "calls" in c:
+            out.append(dict(c, ctor=True, family=c.get("family", "") + "+constructor"))
+    return out
+
+
 def generate(tier, seed, work, stats):
     cases = []
     for kind, nq, maxt, maxrem, k in families(tier):
@@ -135,6 +145,15 @@ def replay(case):
     a, outs = fa.build(case["kind"], ccalls)
     A = fa.project(a)
     evs = [{"op": "build", "kind": case["kind"], "calls": tagged, "outs": outs, "A": A}]
+    if case.get("ctor"):
+        # the same automaton built by the constructor (transition function handed over as a whole): it must be the
+        # same abstract value and answer every query below in the same way
+        r = fa.rebuild_by_constructor(a)
+        if r[0] != "ok":
+            evs.append({"op": "accepts", "A": A, "exc": "constructor:" + (r[1] if r[0] == "exc" else "Timeout"), "words": [], "acc": []})
+            return evs
+        a = r[1]
+        evs.append({"op": "build", "kind": case["kind"], "calls": tagged, "outs": outs, "A": fa.project(a), "ctor": True})
     ymap = fa.SYMBOL_POOLS[case["ypool"]]
     words = fa.words_upto([ymap["a"], ymap["b"], ymap["c"]], 3)
     acc = []
